@@ -50,141 +50,161 @@ def _ex(prog, f, cls, src, self_name="self"):
     return T.tr(ast.parse(src, mode="eval").body)
 
 
+def _norecv(hook):
+    """Static helpers are called as HvsrCurve.<name>(...): drop the class receiver from the canonical call."""
+    HC = sp.Symbol("HvsrCurve", real=True)
+
+    def h(call, T):
+        r = hook(call, T)
+        if r is not None and r.args and r.args[0] == HC:
+            return r.func(*r.args[1:])
+        return r
+    return h
+
+
+def _table(prog, f, cls, self_name="self"):
+    from ..pathtable import PathTable
+    return PathTable(prog, f.module, call_hook=_norecv(pkg_call_hook(prog, f.module, cls, self_name=self_name))).leaves(f.node.body)
+
+
+def _case(l, rel):
+    """True / False / None: does the path assume `rel`?"""
+    from ..pathtable import literals, same_rel, negate
+    ls = literals(l)
+    if any(same_rel(x, rel) for x in ls):
+        return True
+    if any(same_rel(x, negate(rel)) for x in ls):
+        return False
+    return None
+
+
+def _under(l, v):
+    """A boolean value evaluated under the path's assumptions."""
+    if v in (sp.true, sp.false):
+        return v
+    if isinstance(v, sp.logic.boolalg.Boolean):
+        c = _case(l, v)
+        if c is True:
+            return sp.true
+        if c is False:
+            return sp.false
+    return v
+
+
 def _r1(ck: Checker, prog: Program):
     cls = prog.cls("HvsrCurve")
-    # ---- range -> index
+    R = lambda n: sp.Symbol(n, real=True)   # noqa: E731
+    gi, sl, NONE = sp.Function("getitem"), sp.Function("slice"), sp.Symbol("None")
+    FRQ, AMP, SR, KW = R("frequency"), R("amplitude"), R("search_range_in_hz"), R("find_peaks_kwargs")
+    # ---- range -> index bounds
     f = cls.methods["_search_range_to_index_range"]
-    T = Translator()
-    forward_substitute([st for st in f.node.body if isinstance(st, ast.Assign)], T)
-    freq = T.sym("frequency")
-    for lim, dflt_src, name in (("f_low", "0", "f_low_idx"), ("f_high", "len(frequency)", "f_high_idx")):
-        ifs = [st for st in f.node.body if isinstance(st, ast.If) and lim in unparse(st.test)]
-        good = False
-        detail = "branch not found"
-        if len(ifs) == 1:
-            st = ifs[0]
-            tst = st.test
-            is_none = isinstance(tst, ast.Compare) and isinstance(tst.ops[0], ast.Is) and unparse(tst.left) == lim \
-                and isinstance(tst.comparators[0], ast.Constant) and tst.comparators[0].value is None
-            TT = Translator()
-            a = [b for b in st.body if isinstance(b, ast.Assign) and unparse(b.targets[0]) == name]
-            e = [b for b in st.orelse if isinstance(b, ast.Assign) and unparse(b.targets[0]) == name]
-            if is_none and len(a) == 1 and len(e) == 1:
-                want_d = TT.tr(ast.parse(dflt_src, mode="eval").body)
-                want_e = sp.Function("argmin")(sp.Abs(TT.sym("frequency") - TT.sym(lim)))
-                good = equal(TT.tr(a[0].value), want_d) and equal(TT.tr(e[0].value), want_e)
-                detail = f"None -> {unparse(a[0].value)}; else {unparse(e[0].value)}"
+    if f.params[:2] != ["frequency", "search_range_in_hz"]:
+        raise AnalysisError(f"{f.qualname}: parameters are {f.params}")
+    leaves = [l for l in _table(prog, f, cls, "HvsrCurve") if l.exit == "return"]
+    lims = [gi(SR, sp.Integer(0)), gi(SR, sp.Integer(1))]
+    dflt = [sp.Integer(0), sp.Function("len")(FRQ)]
+    alt_dflt = [[sp.Integer(0)], [sp.Function("len")(FRQ), R("frequency.size"), gi(R("frequency.shape"), sp.Integer(0))]]
+    problems = {0: [], 1: []}
+    seen = {0: set(), 1: set()}
+    for l in leaves:
+        v = l.value
+        if not isinstance(v, sp.Tuple) or len(v) != 2:
+            problems[0].append(f"returns {v}")
+            continue
+        for k in (0, 1):
+            none = _case(l, sp.Eq(lims[k], NONE, evaluate=False))
+            if none is None:
+                problems[k].append(f"the bound {v[k]} is chosen without testing whether the limit is None (path {l.cond()})")
+            elif none:
+                seen[k].add("none")
+                if v[k] not in alt_dflt[k]:
+                    problems[k].append(f"None -> {v[k]}")
             else:
-                detail = f"test `{unparse(tst)}` is not `{lim} is None`" if not is_none else "assignments not found"
-        if good:
-            ck.ok("C08.R1", f.qualname, f"{name}: {detail}")
+                seen[k].add("given")
+                if not equal(v[k], sp.Function("argmin")(sp.Abs(FRQ - lims[k]))):
+                    problems[k].append(f"given limit -> {v[k]}")
+    for k, name in ((0, "lower"), (1, "upper")):
+        if not problems[k] and seen[k] == {"none", "given"}:
+            ck.ok("C08.R1", f.qualname, f"{name} index bound: None -> {dflt[k]}; else argmin|frequency - limit|")
         else:
-            ck.violation("C08.R1", f.qualname, name,
-                         f"index bound for `{lim}`: {detail}; expected `{dflt_src}` only when the limit is None and argmin|frequency - {lim}| otherwise "
-                         f"(a limit of 0 is a limit)", loc=f.loc())
-    rets = S.returns_of(f)
-    if len(rets) == 1 and unparse(rets[0].value) == "(f_low_idx, f_high_idx)":
-        ck.ok("C08.R1", f.qualname, norm_key(rets[0]), nontrivial=False)
-    else:
-        ck.violation("C08.R1", f.qualname, "return", "does not return (f_low_idx, f_high_idx)", loc=f.loc())
+            ck.violation("C08.R1", f.qualname, f"{name} index bound",
+                         f"index bound for the {name} limit: {'; '.join(problems[k]) or 'cases ' + str(sorted(seen[k]))}; expected `{dflt[k]}` only when the limit is None and "
+                         f"argmin|frequency - limit| otherwise (a limit of 0 is a limit)", loc=f.loc())
     # ---- bounded
     f = cls.methods["_find_peak_bounded"]
-    T = Translator(call_hook=pkg_call_hook(prog, f.module, cls, self_name="HvsrCurve"))
-    forward_substitute([st for st in f.node.body if isinstance(st, ast.Assign)], T)
-    rets = S.returns_of(f)
-    got = T.tr(rets[-1].value) if rets else None
-    want = _ex(prog, f, cls, "HvsrCurve._find_peak_unbounded(frequency[HvsrCurve._search_range_to_index_range(frequency, search_range_in_hz)[0]:"
-                             "HvsrCurve._search_range_to_index_range(frequency, search_range_in_hz)[1]], "
-                             "amplitude[HvsrCurve._search_range_to_index_range(frequency, search_range_in_hz)[0]:"
-                             "HvsrCurve._search_range_to_index_range(frequency, search_range_in_hz)[1]], find_peaks_kwargs=find_peaks_kwargs)",
-               self_name="HvsrCurve")
-    # structural variant: compare after replacing item(call, k) for tuple unpacking
-    call = [c for c in calls_in(f.node, "_find_peak_unbounded")]
-    ok = False
-    detail = ""
-    if len(call) == 1:
-        b = bind_call(call[0], cls.methods["_find_peak_unbounded"].params)
-        fa, aa = b.get("frequency"), b.get("amplitude")
-        kw = b.get("find_peaks_kwargs")
-        if isinstance(fa, ast.Subscript) and isinstance(aa, ast.Subscript) and isinstance(fa.slice, ast.Slice) and isinstance(aa.slice, ast.Slice):
-            same = unparse(fa.slice) == unparse(aa.slice)
-            bases = (unparse(fa.value), unparse(aa.value)) == ("frequency", "amplitude")
-            lo, hi = unparse(fa.slice.lower) if fa.slice.lower else None, unparse(fa.slice.upper) if fa.slice.upper else None
-            tgt = [st for st in f.node.body if isinstance(st, ast.Assign) and calls_in(st.value, "_search_range_to_index_range")]
-            names = [unparse(e) for e in tgt[0].targets[0].elts] if tgt and isinstance(tgt[0].targets[0], ast.Tuple) else []
-            rcall = calls_in(tgt[0].value, "_search_range_to_index_range")[0] if tgt else None
-            rargs = [unparse(a) for a in rcall.args] if rcall is not None else []
-            ok = same and bases and [lo, hi] == names and rargs == ["frequency", "search_range_in_hz"] and fa.slice.step is None \
-                and kw is not None and unparse(kw) == "find_peaks_kwargs"
-            detail = f"slices {unparse(fa)} / {unparse(aa)}; bounds from {rargs}"
-    # the pair returned is the unbounded result, in order
-    ret_ok = False
-    if rets and call:
-        st = [s for s in f.node.body if isinstance(s, ast.Assign) and any(x is call[0] for x in ast.walk(s.value))]
-        if st and isinstance(st[0].targets[0], ast.Tuple):
-            ret_ok = unparse(rets[-1].value) == unparse(st[0].targets[0])
-        elif isinstance(rets[-1].value, ast.Call):
-            ret_ok = rets[-1].value is call[0]
-    if ok and ret_ok:
-        ck.ok("C08.R1", f.qualname, norm_key(call[0], 110), detail=detail)
+    leaves = [l for l in _table(prog, f, cls, "HvsrCurve") if l.exit == "return"]
+    I = sp.Function("_search_range_to_index_range")(FRQ, SR)
+    cut = sl(gi(I, sp.Integer(0)), gi(I, sp.Integer(1)), NONE)
+    call = sp.Function("_find_peak_unbounded")(gi(FRQ, cut), gi(AMP, cut), KW)
+    wants = [call, sp.Tuple(gi(call, sp.Integer(0)), gi(call, sp.Integer(1)))]
+    if len(leaves) == 1 and any(leaves[0].value == w for w in wants):
+        ck.ok("C08.R1", f.qualname, "searches frequency[lo:hi], amplitude[lo:hi] with the bounds of the requested range and returns that pair", detail=str(leaves[0].value))
     else:
+        got = [str(l.value) for l in leaves]
         ck.violation("C08.R1", f.qualname, "bounded search",
-                     f"frequency and amplitude are not cut with the same index bounds of the requested range and searched together ({detail}; returns pair: {ret_ok})",
+                     f"frequency and amplitude are not cut with the same index bounds of the requested range and searched together (returns {got}; expected {call})",
                      loc=f.loc())
     # ---- unbounded
     f = cls.methods["_find_peak_unbounded"]
-    T = Translator()
-    forward_substitute([st for st in f.node.body if isinstance(st, ast.Assign)], T)
     fp = [c for c in calls_in(f.node, "find_peaks")]
-    good = len(fp) == 1 and fp[0].args and unparse(fp[0].args[0]) == "amplitude" and any(k.arg is None and unparse(k.value) == "find_peaks_kwargs" for k in fp[0].keywords)
+    good = len(fp) == 1 and fp[0].args and unparse(fp[0].args[0]) == f.params[1] and any(k.arg is None and unparse(k.value) == "find_peaks_kwargs" for k in fp[0].keywords)
     if good:
         ck.ok("C08.R1", f.qualname, norm_key(fp[0]), detail="candidates = find_peaks(amplitude, **find_peaks_kwargs)")
     else:
         ck.violation("C08.R1", f.qualname, "find_peaks call", "candidates are not find_peaks(amplitude, **find_peaks_kwargs)", loc=f.loc())
-    idxs = None
-    for st in f.node.body:
-        if isinstance(st, ast.Assign) and fp and any(x is fp[0] for x in ast.walk(st.value)) and isinstance(st.targets[0], ast.Tuple):
-            idxs = unparse(st.targets[0].elts[0])
-    empties = [st for st in f.node.body if isinstance(st, ast.If) and idxs and unparse(st.test) in (f"len({idxs}) == 0", f"{idxs}.size == 0", f"not len({idxs})")]
-    if len(empties) == 1 and any(isinstance(b, ast.Return) and unparse(b.value) == "(None, None)" for b in empties[0].body):
-        ck.ok("C08.R1", f.qualname, norm_key(empties[0]), detail="absent iff no candidates")
+    leaves = [l for l in _table(prog, f, cls, "HvsrCurve") if l.exit == "return"]
+    C = gi(sp.Function("find_peaks")(AMP), sp.Integer(0))
+    empties = [sp.Eq(sp.Function("len")(C), 0, evaluate=False), sp.Eq(sp.Function("attr_size")(C), 0, evaluate=False),
+               sp.Ne(sp.Function("truth")(sp.Function("len")(C)), sp.true, evaluate=False), sp.Ne(sp.Function("truth")(sp.Function("attr_size")(C)), sp.true, evaluate=False)]
+    sub = sp.Function("argmax")(gi(AMP, C))
+    want_pair = sp.Tuple(gi(FRQ, gi(C, sub)), gi(AMP, gi(C, sub)))
+    ok_none = ok_pair = False
+    bad = []
+    for l in leaves:
+        empty = None
+        for e in empties:
+            c = _case(l, e)
+            if c is not None:
+                empty = c
+        if empty is None:
+            bad.append(f"returns {l.value} without testing whether there are candidates")
+        elif empty:
+            if l.value == sp.Tuple(NONE, NONE):
+                ok_none = True
+            else:
+                bad.append(f"no candidates -> {l.value}")
+        else:
+            if isinstance(l.value, sp.Tuple) and len(l.value) == 2 and all(equal(x, y) for x, y in zip(l.value, want_pair)):
+                ok_pair = True
+            else:
+                bad.append(f"candidates -> {l.value}")
+    if ok_none and not [b for b in bad if "no candidates" in b or "without testing" in b]:
+        ck.ok("C08.R1", f.qualname, "(None, None) exactly when find_peaks yields no candidates", detail="absent iff no candidates")
     else:
-        ck.violation("C08.R1", f.qualname, "no-candidate case", "(None, None) is not returned exactly when find_peaks yields no candidates", loc=f.loc())
-    rets = [r for r in S.returns_of(f) if unparse(r.value) != "(None, None)"]
-    okr = False
-    detail = ""
-    if len(rets) == 1 and idxs:
-        TT = Translator()
-        forward_substitute([st for st in f.node.body if isinstance(st, ast.Assign) and not isinstance(st.targets[0], ast.Tuple)], TT)
-        got = TT.tr(rets[0].value)
-        gi = sp.Function("getitem")
-        I, A, F = TT.sym(idxs), TT.sym("amplitude"), TT.sym("frequency")
-        sub = sp.Function("argmax")(gi(A, I))
-        want = sp.Tuple(gi(F, gi(I, sub)), gi(A, gi(I, sub)))
-        okr = equal(got, want) if not isinstance(got, sp.Tuple) else all(equal(x, y) for x, y in zip(got, want)) and len(got) == 2
-        detail = str(got)
-    if okr:
-        ck.ok("C08.R1", f.qualname, norm_key(rets[0], 110), detail="(frequency[i*], amplitude[i*]) with i* = candidates[argmax(amplitude[candidates])]")
+        ck.violation("C08.R1", f.qualname, "no-candidate case", f"(None, None) is not returned exactly when find_peaks yields no candidates ({'; '.join(bad)})", loc=f.loc())
+    if ok_pair and not [b for b in bad if b.startswith("candidates")]:
+        ck.ok("C08.R1", f.qualname, "(frequency[i*], amplitude[i*]) with i* = candidates[argmax(amplitude[candidates])]")
     else:
         ck.violation("C08.R1", f.qualname, "reported pair",
-                     f"the reported pair is {detail}; expected frequency and amplitude at the same candidate index chosen by argmax of the candidate amplitudes",
+                     f"the reported pair is not frequency and amplitude at the same candidate index chosen by argmax of the candidate amplitudes ({'; '.join(bad)})",
                      loc=f.loc())
 
 
 def _r2(ck: Checker, prog: Program):
-    m = prog.cls("HvsrTraditional").methods["update_peaks_bounded"]
+    from ..pathtable import PathTable
+    tcls = prog.cls("HvsrTraditional")
+    m = tcls.methods["update_peaks_bounded"]
     fq = m.qualname
     cfg = cfg_of(m)
     loops = [st for st in m.node.body if isinstance(st, ast.For)]
     if len(loops) != 1:
         raise AnalysisError(f"{fq}: expected one per-window loop")
     lp = loops[0]
-    if unparse(lp.iter) != "enumerate(self.amplitude)" or any(isinstance(x, (ast.Break,)) for x in ast.walk(lp)):
+    if unparse(lp.iter) != "enumerate(self.amplitude)" or not isinstance(lp.target, ast.Tuple) or any(isinstance(x, (ast.Break,)) for x in ast.walk(lp)):
         ck.violation("C08.R2", fq, norm_key(lp), "the loop does not visit every row of self.amplitude (or may stop early)", loc=m.loc(lp))
-    else:
-        ck.ok("C08.R2", fq, norm_key(lp), nontrivial=False)
-    idx = unparse(lp.target.elts[0]) if isinstance(lp.target, ast.Tuple) else None
-    row = unparse(lp.target.elts[1]) if isinstance(lp.target, ast.Tuple) else None
+        return
+    ck.ok("C08.R2", fq, norm_key(lp), nontrivial=False)
+    idx, row = unparse(lp.target.elts[0]), unparse(lp.target.elts[1])
     targets = ["_main_peak_frq", "_main_peak_amp", "valid_window_boolean_mask", "valid_peak_boolean_mask"]
 
     def classify(n):
@@ -202,39 +222,54 @@ def _r2(ck: Checker, prog: Program):
         ck.violation("C08.R2", fq, "definite assignment per window",
                      f"an iteration can end having written {dict(zip(targets, bad[0])) if bad else res} (times) for window `{idx}`: "
                      f"a peak or mask entry keeps a stale value after the range changes", loc=m.loc(lp))
-    # values per branch
-    ifs = [st for st in lp.body if isinstance(st, ast.If)]
-    good = False
-    if len(ifs) == 1 and unparse(ifs[0].test) in ("f_peak is None",):
-        def vals(block):
-            out = {}
-            for b in block:
-                if isinstance(b, ast.Assign) and isinstance(b.targets[0], ast.Subscript) and isinstance(b.targets[0].value, ast.Attribute):
-                    out[b.targets[0].value.attr] = unparse(b.value)
-            return out
-        va, vp = vals(ifs[0].body), vals(ifs[0].orelse)
-        good = va == {"_main_peak_frq": "np.nan", "_main_peak_amp": "np.nan", "valid_window_boolean_mask": "False", "valid_peak_boolean_mask": "False"} \
-            and vp == {"_main_peak_frq": "f_peak", "_main_peak_amp": "a_peak", "valid_window_boolean_mask": "True", "valid_peak_boolean_mask": "True"}
-    if good:
+    # values per outcome (decision table of the loop body)
+    R = lambda n: sp.Symbol(n, real=True)   # noqa: E731
+    gi, NONE = sp.Function("getitem"), sp.Symbol("None")
+    IDX, ROW = sp.Symbol("<window index>", integer=True), R("<window row>")
+    hook = _norecv(pkg_call_hook(prog, m.module, prog.cls("HvsrCurve"), self_name="HvsrCurve"))
+    leaves = PathTable(prog, m.module, call_hook=hook, env={idx: IDX, row: ROW}).leaves(lp.body)
+    call = None
+    for l in leaves:
+        for a in sp.preorder_traversal(sp.Tuple(*[e[2] for e in l.events if e[0] == "store"], *[c for c, _t in l.conds])):
+            if getattr(a, "func", None) is not None and getattr(a.func, "__name__", "") == "_find_peak_bounded":
+                call = a
+    if call is None:
+        ck.violation("C08.R2", fq, "per-window search", "no call of _find_peak_bounded decides the per-window peak", loc=m.loc(lp))
+        return
+    a = list(call.args)
+    srs = (R("self._search_range_in_hz"), R("search_range_in_hz"))
+    kws = (R("self._find_peaks_kwargs"), R("find_peaks_kwargs"))
+    if len(a) == 4 and a[0] == R("self.frequency") and a[1] == ROW and a[2] in srs and a[3] in kws:
+        ck.ok("C08.R2", fq, "per-window search over (self.frequency, this row) with the range in force", detail=str(call))
+    else:
+        ck.violation("C08.R2", fq, "per-window search", f"the per-window search is {call}: it does not examine (self.frequency, this row) over the range in force", loc=m.loc(lp))
+    FP, AP = gi(call, sp.Integer(0)), gi(call, sp.Integer(1))
+    absent = sp.Eq(FP, NONE, evaluate=False)
+    problems = []
+    seen = set()
+    for l in leaves:
+        c = _case(l, absent)
+        if c is None:
+            problems.append(f"a path ({l.cond()}) does not distinguish found from absent peaks")
+            continue
+        seen.add(c)
+        vals = {}
+        for e in l.events:
+            if e[0] == "store" and id(e[3]) in l.store_at:
+                base, ix = l.store_at[id(e[3])]
+                if ix == IDX and str(base).startswith("self."):
+                    vals[str(base)[5:]] = _under(l, e[2])
+        want = {"_main_peak_frq": sp.nan, "_main_peak_amp": sp.nan, "valid_window_boolean_mask": sp.false, "valid_peak_boolean_mask": sp.false} if c else \
+            {"_main_peak_frq": FP, "_main_peak_amp": AP, "valid_window_boolean_mask": sp.true, "valid_peak_boolean_mask": sp.true}
+        for k, w in want.items():
+            g = vals.get(k)
+            if g is None or not (g == w or (g is sp.nan and w is sp.nan)):
+                problems.append(f"{'absent' if c else 'found'} peak: {k} <- {g} (expected {w})")
+    if not problems and seen == {True, False}:
         ck.ok("C08.R2", fq, "absent -> NaN/False; found -> (f_peak, a_peak)/True")
     else:
-        ck.violation("C08.R2", fq, "values per outcome", "absent peaks are not recorded as NaN with both masks False, or found peaks not as (f_peak, a_peak) with both masks True",
-                     loc=m.loc(lp))
-    # the search inside the loop: this row, the object's frequency, the range in force
-    c = calls_in(lp, "_find_peak_bounded")
-    if len(c) == 1:
-        b = bind_call(c[0], prog.cls("HvsrCurve").methods["_find_peak_bounded"].params)
-        okc = unparse(b.get("frequency")) == "self.frequency" and unparse(b.get("amplitude")) == row \
-            and unparse(b.get("search_range_in_hz")) in ("self._search_range_in_hz", "search_range_in_hz") \
-            and unparse(b.get("find_peaks_kwargs")) in ("self._find_peaks_kwargs", "find_peaks_kwargs")
-        tgt = parent_of(c[0])
-        okt = isinstance(tgt, ast.Assign) and unparse(tgt.targets[0]) == "(f_peak, a_peak)"
-        if okc and okt:
-            ck.ok("C08.R2", fq, norm_key(c[0], 110))
-        else:
-            ck.violation("C08.R2", fq, norm_key(c[0], 110), "the per-window search does not examine (self.frequency, this row) over the range in force", loc=m.loc(c[0]))
-    else:
-        ck.violation("C08.R2", fq, "per-window search", "no single call of _find_peak_bounded in the loop", loc=m.loc(lp))
+        ck.violation("C08.R2", fq, "values per outcome", "absent peaks are not recorded as NaN with both masks False, or found peaks not as (f_peak, a_peak) with both masks True: "
+                     + "; ".join(problems[:3]), loc=m.loc(lp))
     # HvsrCurve: single curve
     m = prog.cls("HvsrCurve").methods["update_peaks_bounded"]
     st = [s for s in m.node.body if isinstance(s, ast.Assign) and unparse(s.targets[0]) == "(self.peak_frequency, self.peak_amplitude)"]
@@ -245,6 +280,23 @@ def _r2(ck: Checker, prog: Program):
         ck.ok("C08.R2", m.qualname, "peak_frequency, peak_amplitude = found pair or NaN")
     else:
         ck.violation("C08.R2", m.qualname, "single-curve peak", "HvsrCurve does not store the found pair (NaN when absent)", loc=m.loc())
+    # the curve a cached peak describes cannot be changed from outside: constructors keep private copies
+    from .common import engine, reachable_nonlocal
+    eng = engine(prog)
+    for q in ("hvsr_curve.HvsrCurve.__init__", "hvsr_traditional.HvsrTraditional.__init__"):
+        init = prog.func(q)
+        s = eng.summary(init)
+        for fld in ("frequency", "amplitude"):
+            ent = s.heap.get((("P", 0, ()), fld))
+            if ent is None:
+                raise AnalysisError(f"{q}: self.{fld} is not stored")
+            shared = [org for _path, org in reachable_nonlocal(eng, s, ent[0]) if org[0] in ("P", "G")]
+            if not shared:
+                ck.ok("C08.R3", q, f"self.{fld} is a private copy of the argument")
+            else:
+                ck.violation("C08.R3", q, f"self.{fld} shares storage",
+                             f"self.{fld} can share its buffer with the caller's array: the curve can change after its peak was cached "
+                             f"(the reported peak would no longer be a maximum of the curve)", loc=init.loc())
 
 
 def _r3(ck: Checker, prog: Program):
